@@ -31,7 +31,9 @@ THEOREMS = ["C11_sart_returns_iterate_under_stopping_rule", "C11_csart_returns_i
             "C11_sart_exact_solution_is_fixed_point", "C11_csart_exact_solution_is_fixed_point",
             "C11_sart_error_only_for_zero_measurement",
             "C11_stacked_system_is_tikhonov_objective", "C11_kkt_certificate_sufficient",
-            "C11_normal_equations_certificate_sufficient", "C11_nnls_wrapper_returns_tikhonov_minimiser"]
+            "C11_normal_equations_certificate_sufficient", "C11_nnls_wrapper_returns_tikhonov_minimiser",
+            "C11_nnls_output_certificate_sound", "C11_lstsq_output_certificate_sound",
+            "C11_svd_output_certificate_sound"]
 
 E1 = float(np.exp(-1))          # the constant the code uses for a missing initial guess
 
@@ -63,7 +65,7 @@ def gen_value(rng, mode, lo, hi):
     return rng.uniform(lo, hi)
 
 
-def gen_matrix(rng, m, n, mode, tags):
+def gen_matrix(rng, m, n, mode, tags, maxp=22):
     """non-negative weights; structural classes recorded in `tags`"""
     dens = rng.choice([0.3, 0.6, 1.0])
     W = np.zeros((m, n))
@@ -94,7 +96,7 @@ def gen_matrix(rng, m, n, mode, tags):
     if mode == "float" and rng.random() < 0.25 and n > 1:
         # nearly dependent columns (ill-conditioned, singular value ~ 2^-p of the largest)
         j, k = rng.sample(range(n), 2)
-        p = rng.randint(8, 22)
+        p = rng.randint(8, maxp)
         W[:, j] = W[:, k] * (1.0 + 2.0 ** -p)
         W[rng.randrange(m), j] += 2.0 ** -p
         tags.add("near_dup_col")
@@ -154,7 +156,10 @@ def gen_guess(rng, n, mode, tags):
         return None
     if r < 0.35:
         tags.add("guess_scalar")
-        return float(gen_value(rng, mode, 0, 3))
+        v = float(gen_value(rng, mode, 0, 3))
+        if v == int(v) and rng.random() < 0.5:
+            tags.add("guess_scalar_python_int")
+        return v
     v = np.array([gen_value(rng, mode, -2 if rng.random() < 0.5 else 0, 6) for _ in range(n)])
     if np.any(v < 0):
         tags.add("guess_negative")
@@ -171,8 +176,11 @@ def initial_array(g, n):
 
 def gen_sart_case(rng, mode, big, constrained):
     tags = set()
-    if big:
-        m, n = rng.randint(1, 12), rng.randint(1, 20)
+    large = big and rng.random() < 0.3
+    if large:
+        m, n = rng.randint(1, 12), rng.randint(1, 20)     # up to the design's 12 x 20, few sweeps
+    elif big:
+        m, n = rng.randint(1, 7), rng.randint(1, 9)
     else:
         m, n = rng.randint(1, 4), rng.randint(1, 5)
     W = gen_matrix(rng, m, n, mode, tags)
@@ -183,9 +191,9 @@ def gen_sart_case(rng, mode, big, constrained):
     g = gen_guess(rng, n, mode, tags)
     relax = dyadic(rng, 0.1, 1.9, 4)
     tol = rng.choice([1.0E-4, 1.0E-4, 2.0 ** -6, 2.0 ** -10, 0.0, 0.5, 8.0])
-    maxit = rng.choice([0, 1, 2, 3, 4, 6] + ([9, 14] if big else []) + [-1])
+    maxit = rng.choice([0, 1, 2, 3, -1] if large else ([0, 1, 2, 3, 4, 6] + ([9, 14] if big else []) + [-1]))
     case = {"kind": "csart" if constrained else "sart", "mode": mode, "m": m, "n": n, "W": W, "b": b, "guess": g,
-            "relax": relax, "tol": tol, "maxit": maxit, "tags": tags, "big": big}
+            "relax": relax, "tol": tol, "maxit": maxit, "tags": tags, "big": big, "large": large}
     if constrained:
         case["L"] = gen_laplacian(rng, n, mode, tags)
         case["beta"] = rng.choice([0.0, 0.01, dyadic(rng, 0, 0.25, 6)])
@@ -197,7 +205,8 @@ def gen_sart_case(rng, mode, big, constrained):
 def gen_lsq_case(rng, mode, kind):
     tags = set()
     m, n = rng.randint(1, 10), rng.randint(1, 12)
-    W = gen_matrix(rng, m, n, mode, tags)
+    # invert_svd forms the explicit pseudo-inverse, which loses eps x cond(W): condition numbers kept <= ~1e5 there
+    W = gen_matrix(rng, m, n, mode, tags, maxp=16 if kind == "svd" else 22)
     b = gen_measurement(rng, W, mode, tags)
     if kind == "nnls" and rng.random() < 0.06:
         b = -np.abs(b) if rng.random() < 0.5 else np.zeros(m)
@@ -221,6 +230,8 @@ def run_sart_impl(inv, case, maxit=None):
     implementation updates it in place."""
     g = case["guess"]
     g = g.copy() if isinstance(g, np.ndarray) else g
+    if "guess_scalar_python_int" in case["tags"]:
+        g = int(g)
     mi = case["maxit"] if maxit is None else maxit
     with warnings.catch_warnings():
         warnings.simplefilter("ignore")
@@ -234,6 +245,8 @@ def run_sart_impl(inv, case, maxit=None):
                                                     beta_laplace=case["beta"], conv_tol=case["tol"])
         except ZeroDivisionError:
             return "zerodiv", None, None
+        except Exception as ex:            # not swallowed: reported as a finding with its input by the caller
+            return "exception:%s: %s" % (type(ex).__name__, ex), None, None
     return "ok", np.array(x, dtype=float), [float(c) for c in cs]
 
 
@@ -246,7 +259,8 @@ def sart_trace_impl(inv, case):
     xs = []
     for k in range(1, len(cs)):
         st_k, xk, _ = run_sart_impl(inv, case, maxit=k)
-        assert st_k == "ok"
+        if st_k != "ok":
+            return st_k if st_k.startswith("exception") else "exception:status %s with max_iterations=%d" % (st_k, k), None, None
         xs.append(xk)
     if len(cs) > 0:
         xs.append(x)
@@ -294,7 +308,8 @@ def run(ctx):
         "(eps = 2^-30 x rounding-error scale of the gradient / objective); no theorem about the solvers' algorithms",
     ]
     ctx.rebuild()
-    ctx.proofs("Properties.C11", THEOREMS, extra_modules=("Model.C11_Check",))
+    ctx.proofs("Properties.C11", THEOREMS, extra_modules=("Model.C11_Check", "Proofs.C11_Check"))
+    ctx.log("proofs checked")
 
     import cherab
     from common import REPO
@@ -336,8 +351,8 @@ def run(ctx):
                 corpus_cases.append(c)
 
     # ---- SART cases ------------------------------------------------------------------------------
-    n_run = 36 if quick else 300
-    n_trace = 70 if quick else 1500
+    n_run = 32 if quick else 200
+    n_trace = 80 if quick else 1000
     sart_cases = [c for c in corpus_cases if c["kind"] in ("sart", "csart")]
     for i in range(n_run):
         sart_cases.append(gen_sart_case(rng, rng.choice(["int", "int", "dyadic"]), False, i % 2 == 1))
@@ -355,7 +370,8 @@ def run(ctx):
             xs = np.zeros(c["n"]) + float(rng.randint(0, 5))      # constant vector: chain/ring Laplacian vanishes
         c["guess"], c["b"] = xs, c["W"] @ xs
         c["maxit"] = rng.choice([1, 3, 6])
-        c["tags"] = (c["tags"] - {"guess_none", "guess_scalar", "guess_negative", "zero_measurement"}) | {"exact_solution_start"}
+        c["tags"] = (c["tags"] - {"guess_none", "guess_scalar", "guess_scalar_python_int", "guess_negative",
+                                  "zero_measurement"}) | {"exact_solution_start"}
         c["tie"] = "trace"
         sart_cases.append(c)
 
@@ -372,7 +388,9 @@ def run(ctx):
         count("tie", case["tie"])
         for t in case["tags"]:
             count("tags", t)
-        key = "%s_%d" % (kind, ci)
+        if st.startswith("exception"):
+            viol.append(("c11:%s:exception" % kind, "%s raised %s on a valid input" % (kind, st[10:]), meta_of(case)))
+            continue
         if st == "ok" and not finite(cs, *xs):
             viol.append(("c11:%s:nonfinite" % kind, "%s returned a non-finite solution or convergence value for finite inputs "
                          "with non-negative weights" % ("invert_constrained_sart" if kind == "csart" else "invert_sart"),
@@ -414,7 +432,7 @@ def run(ctx):
         entries.append((e, case))
 
     # ---- least-squares cases -------------------------------------------------------------------
-    n_lsq = 40 if quick else 600
+    n_lsq = 48 if quick else 480
     lsq_cases = [c for c in corpus_cases if c["kind"] in ("nnls", "lstsq", "svd")]
     for i in range(n_lsq):
         lsq_cases.append(gen_lsq_case(rng, rng.choice(["int", "dyadic", "float", "float"]), ["nnls", "lstsq", "nnls", "svd"][i % 4]))
@@ -463,6 +481,10 @@ def run(ctx):
                 except ValueError as ex:
                     status = "valueerror"
                     case["impl"] = {"status": status, "message": str(ex)}
+                except Exception as ex:
+                    viol.append(("c11:nnls:exception", "invert_regularised_nnls raised %s: %s on a valid input"
+                                 % (type(ex).__name__, ex), meta_of(case)))
+                    continue
                 if status == "ok":
                     if not finite(x, rn):
                         viol.append(("c11:nnls:nonfinite", "invert_regularised_nnls returned a non-finite solution or norm",
@@ -516,6 +538,7 @@ def run(ctx):
         n_nontrivial += 1
         distinct.add((kind, W.tobytes(), b.tobytes(), case.get("alpha"), None if case.get("L") is None else case["L"].tobytes()))
 
+    ctx.log("implementation runs done: %d entries" % len(entries))
     # ---- write case files and run them in Coq -----------------------------------------------------
     # shards balanced by estimated cost (rows x columns x sweeps), so that the parallel coqc runs end together
     def cost(case):
@@ -590,8 +613,9 @@ def run(ctx):
                       "sart_whole_run": "2^-30 x max|x|; convergence values 2^-30 x (1+|c|)",
                       "stop_decision_margin": "2^-30 absolute on | |c_k - c_(k-1)| - tol |",
                       "wrapper_system": "2^-50 relative per entry (one division / multiplication in double)",
-                      "certificates": "eps = 2^-30 x rounding-error scale (sum |C_ij| (|C||x| + |d|)_i for the gradient, "
-                                      "|(|C||x| + |d|)|^2 for the objective)"},
+                      "certificates": "eps = 2^-30 x rounding-error scale (max_j sum_i |C_ij| x max_i (|C||x| + |d|)_i for the gradient, "
+                                      "|(|C||x| + |d|)|^2 for the objective); invert_svd: 2^-26 (explicit pseudo-inverse: eps x cond(W), "
+                                      "generated cond(W) <= ~1e5)"},
         "partial": ["NNLS / LSQ / SVD: the third-party solvers are not modelled; each output is certified (validation of outputs) "
                     "and the Coq theorem turns the certificate into eps-optimality against every competitor",
                     "invert_svd: only the normal equations of |Wx-b|^2 are certified (not the minimum-norm choice)",
